@@ -38,6 +38,10 @@ type Solver struct {
 	Errors   int
 	Time     time.Duration
 	IOTime   time.Duration
+	sinceRestart int
+	FeasTimeoutMs int
+	Fallbacks     int
+	Restarts     int
 	Log      io.Writer // optional transcript
 	TimeoutS int
 }
@@ -50,8 +54,29 @@ func argv(name string, timeoutS int) []string {
 		return []string{"z3-new", "-in", fmt.Sprintf("-t:%d", timeoutS*1000)}
 	case "cvc5":
 		return []string{"cvc5", "--incremental", "--lang=smt2", "--produce-models", fmt.Sprintf("--tlimit-per=%d", timeoutS*1000)}
+	case "cvc5-int":
+		return []string{"cvc5", "--lang=smt2", "--solve-bv-as-int=sum", fmt.Sprintf("--tlimit=%d", timeoutS*1000)}
 	}
 	panic("unknown solver " + name)
+}
+
+// Restart replaces the solver process by a fresh one (z3 slows down badly
+// after many thousand push/pop rounds with global declarations).
+func (s *Solver) Restart() {
+	if s.cmd != nil {
+		s.in.Close()
+		s.cmd.Process.Kill()
+		s.cmd.Wait()
+	}
+	n, err := New(s.Name, s.TimeoutS)
+	if err != nil {
+		panic(err)
+	}
+	s.cmd, s.in, s.w, s.out = n.cmd, n.in, n.w, n.out
+	s.declared = map[string]bool{}
+	s.stack = nil
+	s.sinceRestart = 0
+	s.Restarts++
 }
 
 func New(name string, timeoutS int) (*Solver, error) {
@@ -75,6 +100,7 @@ func New(name string, timeoutS int) (*Solver, error) {
 	if name == "cvc5" {
 		s.send("(set-logic QF_BV)")
 	}
+	s.FeasTimeoutMs = 8000
 	return s, nil
 }
 
@@ -175,17 +201,45 @@ func (s *Solver) checkSat() Result {
 	return r
 }
 
-// Check decides pc ∧ extra. The stack is left synced to pc.
+// Check decides pc ∧ extra. The stack is left synced to pc. A z3 timeout is
+// retried with cvc5's integer encoding of bit-vectors, which handles the
+// multiply-by-constant constraints of decimal rendering much better.
 func (s *Solver) Check(pc []*sym.Term, extra *sym.Term) Result {
 	s.Sync(pc)
+	var r Result
 	if extra == nil {
-		return s.checkSat()
+		r = s.checkSatT(s.FeasTimeoutMs)
+	} else {
+		s.send("(push 1)")
+		s.assert(extra)
+		r = s.checkSatT(s.FeasTimeoutMs)
+		s.send("(pop 1)")
 	}
-	s.send("(push 1)")
-	s.assert(extra)
-	r := s.checkSat()
-	s.send("(pop 1)")
+	if r == Unknown {
+		r = s.fallback(pc, extra)
+	}
 	return r
+}
+
+func (s *Solver) fallback(pc []*sym.Term, extra *sym.Term) Result {
+	s.Fallbacks++
+	t0 := time.Now()
+	r := OneShot("cvc5-int", s.TimeoutS, "(set-logic ALL)\n"+Script(pc, extra))
+	if r == Unknown {
+		r = OneShot("z3-new", s.TimeoutS, Script(pc, extra))
+	}
+	s.Time += time.Since(t0)
+	return r
+}
+
+func (s *Solver) checkSatT(ms int) Result {
+	if s.Name == "z3" && ms > 0 {
+		s.send(fmt.Sprintf("(set-option :timeout %d)", ms))
+		r := s.checkSat()
+		s.send(fmt.Sprintf("(set-option :timeout %d)", s.TimeoutS*1000))
+		return r
+	}
+	return s.checkSat()
 }
 
 // CheckIsolated decides the conjunction of cs on an empty base (the synced
@@ -193,6 +247,18 @@ func (s *Solver) Check(pc []*sym.Term, extra *sym.Term) Result {
 func (s *Solver) CheckIsolated(cs []*sym.Term) Result {
 	t00 := time.Now()
 	defer func() { s.IOTime += time.Since(t00) }()
+	s.sinceRestart++
+	if s.sinceRestart > 3000 {
+		s.Restart()
+	}
+	r := s.checkIsolated1(cs)
+	if r == Unknown {
+		r = s.fallback(cs, nil)
+	}
+	return r
+}
+
+func (s *Solver) checkIsolated1(cs []*sym.Term) Result {
 	if len(s.stack) > 0 {
 		s.send(fmt.Sprintf("(pop %d)", len(s.stack)))
 		s.stack = s.stack[:0]
@@ -201,7 +267,7 @@ func (s *Solver) CheckIsolated(cs []*sym.Term) Result {
 	for _, c := range cs {
 		s.assert(c)
 	}
-	r := s.checkSat()
+	r := s.checkSatT(s.FeasTimeoutMs)
 	s.send("(pop 1)")
 	return r
 }
